@@ -2,6 +2,8 @@ package graphql
 
 import (
 	"context"
+	"fmt"
+	"runtime"
 )
 
 type ComputationInput struct {
@@ -24,7 +26,20 @@ type ComputationOutput struct {
 type MiddlewareFunc func(input *ComputationInput, next MiddlewareNextFunc) *ComputationOutput
 type MiddlewareNextFunc func(input *ComputationInput) *ComputationOutput
 
-func RunMiddlewares(middlewares []MiddlewareFunc, input *ComputationInput) *ComputationOutput {
+// RunMiddlewares runs the middleware chain. Middlewares are user code that runs
+// on the goroutine of the request's computation: like a panicking resolver, a
+// panicking middleware fails its own request with an error instead of taking
+// the process down.
+func RunMiddlewares(middlewares []MiddlewareFunc, input *ComputationInput) (output *ComputationOutput) {
+	defer func() {
+		if panicErr := recover(); panicErr != nil {
+			output = &ComputationOutput{
+				Metadata: make(map[string]interface{}),
+				Error:    panicError(panicErr),
+			}
+		}
+	}()
+
 	var run func(index int, middlewares []MiddlewareFunc, input *ComputationInput) *ComputationOutput
 	run = func(index int, middlewares []MiddlewareFunc, input *ComputationInput) *ComputationOutput {
 		if index >= len(middlewares) {
@@ -40,4 +55,23 @@ func RunMiddlewares(middlewares []MiddlewareFunc, input *ComputationInput) *Comp
 	}
 
 	return run(0, middlewares, input)
+}
+
+// panicError turns a recovered panic of user code into the error of the request.
+func panicError(panicErr interface{}) error {
+	const size = 64 << 10
+	buf := make([]byte, size)
+	buf = buf[:runtime.Stack(buf, false)]
+	return fmt.Errorf("graphql: panic: %v\n%s", panicErr, buf)
+}
+
+// safeMakeCtx runs a connection's MakeCtx hook; a panic in it is returned as
+// an error (and the context is left as it was).
+func safeMakeCtx(makeCtx MakeCtxFunc, ctx context.Context) (out context.Context, err error) {
+	defer func() {
+		if panicErr := recover(); panicErr != nil {
+			out, err = ctx, panicError(panicErr)
+		}
+	}()
+	return makeCtx(ctx), nil
 }
